@@ -215,8 +215,10 @@ fn eval_hlp(v: &Value) -> String {
             let mut b = bufs[0].clone();
             let off = a[0] as usize;
             let len = a[1];
-            let r = rbpf::helpers::memfrob(b.as_mut_ptr() as u64 + off as u64, len, a[2], a[3], a[4]);
-            format!("{r:#x}:{}", hexs(&b))
+            // what memfrob returns is not specified (C19 speaks of the bytes only; glibc's returns the
+            // pointer, which would differ between the two processes): the buffer is the answer
+            let _ = rbpf::helpers::memfrob(b.as_mut_ptr() as u64 + off as u64, len, a[2], a[3], a[4]);
+            format!("frobbed:{}", hexs(&b))
         }
         _ => {
             let mut x = bufs[0].clone();
